@@ -29,8 +29,11 @@ func BPlusTreeStore.Mutate
   ensures C14/stored-values-as-given: forall k int :: 0 <= k && k < len(mutations) ==> bytes(storedVal(old(insCount) + k)) == bytes(mutations[k].Value)
   loop 1 modifies insCount, insKeys, insVals
   loop 1 invariant C14/one-insert-per-mutation: -1 <= rangeindex && rangeindex < len(mutations) && insCount == old(insCount) + rangeindex + 1
-  loop 1 invariant C14/keys-so-far-are-prefix-plus-key: forall k int :: 0 <= k && k <= rangeindex ==> allocated(storedKey(old(insCount) + k)) && keyOf(storedKey(old(insCount) + k), mutations[k])
-  loop 1 invariant C14/values-so-far-as-given: forall k int :: 0 <= k && k <= rangeindex ==> allocated(storedVal(old(insCount) + k)) && bytes(storedVal(old(insCount) + k)) == bytes(mutations[k].Value)
+  // (the slices handed over so far exist, so nothing allocated later can be one of them)
+  loop 1 invariant forall k int :: 0 <= k && k <= rangeindex ==> allocated(storedKey(old(insCount) + k)) && allocated(storedVal(old(insCount) + k))
+  loop 1 invariant C14/keys-so-far-have-the-prefix: forall k int :: 0 <= k && k <= rangeindex ==> len(storedKey(old(insCount) + k)) == 1 + len(mutations[k].Key) && storedKey(old(insCount) + k)[0] == prefixOf(mutations[k].Table)
+  loop 1 invariant C14/keys-so-far-are-prefix-plus-key: forall k int :: 0 <= k && k <= rangeindex ==> len(storedKey(old(insCount) + k)) >= 1 && bytes(storedKey(old(insCount) + k)[1:]) == bytes(mutations[k].Key)
+  loop 1 invariant C14/values-so-far-as-given: forall k int :: 0 <= k && k <= rangeindex ==> bytes(storedVal(old(insCount) + k)) == bytes(mutations[k].Value)
 
 // Range reads: every pair returned has a stored key (table prefix + user key; the user key
 // handed out is the stored key without its first byte, hence lbytes(.., 1)) that lies within
